@@ -6,13 +6,13 @@ _SHAPES_PLAIN = [None, None, 'two', None, None, 'one']
 
 CHECK = dict(
         runs=[
-            dict(harness='h_sock', flavor='asan', execs=dict(quick=30, thorough=90),
+            dict(harness='h_sock', flavor='asan', execs=dict(quick=30, thorough=140),
                  timeout=dict(quick=240, thorough=900), shapes=_SHAPES_ASAN, cfg={}),
-            dict(harness='h_sock', flavor='plain', execs=dict(quick=48, thorough=180),
+            dict(harness='h_sock', flavor='plain', execs=dict(quick=48, thorough=280),
                  timeout=dict(quick=240, thorough=900), shapes=_SHAPES_PLAIN, cfg={}),
             # client and server vCPUs are different OS threads in this run (cfg vcpus=2): TSan watches the
             # process-wide state of the engines / socket layer and the harness ledger
-            dict(harness='h_sock', flavor='tsan', execs=dict(quick=6, thorough=12),
+            dict(harness='h_sock', flavor='tsan', execs=dict(quick=6, thorough=16),
                  timeout=dict(quick=300, thorough=900), shapes=[None], cfg={'vcpus': 2}),
         ],
         par=14,
@@ -33,13 +33,13 @@ CHECK = dict(
                             'timeouts_reader': 200, 'timeouts_writer': 100, 'iovec_empty_elements': 10000,
                             'shim_short_counts': 5000, 'shim_eintr': 1000, 'shim_spurious_eagain': 500,
                             'C_EPOLL_WAIT_FD': 10000}),
-            thorough=dict(evaluations=250, events=1000000, distinct=150,
-                          cov={'shim_hits': 800000, 'eagain_reader_side': 40000, 'eagain_writer_side': 4000,
-                               'writev_resumed_inside_element': 4000, 'both_directions_waiting_on_one_fd': 800,
-                               'C_EPOLL_BATCH_FULL': 60, 'timeout_with_data_in_flight': 800, 'eof_inside_full_read': 500,
-                               'timeouts_reader': 1600, 'timeouts_writer': 800, 'iovec_empty_elements': 80000,
-                               'shim_short_counts': 40000, 'shim_eintr': 8000, 'shim_spurious_eagain': 4000,
-                               'C_EPOLL_WAIT_FD': 80000})),
+            thorough=dict(evaluations=390, events=1400000, distinct=220,
+                          cov={'shim_hits': 1000000, 'eagain_reader_side': 50000, 'eagain_writer_side': 5000,
+                               'writev_resumed_inside_element': 5000, 'both_directions_waiting_on_one_fd': 1000,
+                               'C_EPOLL_BATCH_FULL': 80, 'timeout_with_data_in_flight': 1000, 'eof_inside_full_read': 700,
+                               'timeouts_reader': 2000, 'timeouts_writer': 1000, 'iovec_empty_elements': 100000,
+                               'shim_short_counts': 50000, 'shim_eintr': 10000, 'shim_spurious_eagain': 5000,
+                               'C_EPOLL_WAIT_FD': 100000})),
         assumptions=['Linux loopback TCP and AF_UNIX stream sockets deliver bytes reliably and in order (the kernel is trusted)',
                      'the shim injects only behaviours a kernel may show: short counts >= 1, EINTR, spurious EAGAIN on level-triggered streams only',
                      'io_uring is not built in this tree: epoll, epoll-ng and the edge-triggered poller only',
